@@ -95,8 +95,10 @@ def history(draw, ntapes=3):
     nb = draw(st.integers(1, 2))
     lines = [HEAD.rstrip("\n")]
     defaults = []
+    plain_decl, rebound = [], {}
     for i in range(nb):
         df = draw(st.sampled_from([None, 523.0, 300]))
+        plain_decl.append(df is None)
         defaults.append(440.0 if df is None else float(df))
         lines.append(f"bz{i} = Buzzer({8 + i}" + (f", default_frequency={df})" if df is not None else ")"))
     ops = []
@@ -126,6 +128,12 @@ def history(draw, ntapes=3):
         b = draw(st.integers(0, nb - 1))
         o = draw(st.sampled_from(["play_tone", "play_tone_d", "stop", "beep", "beep_nofreq", "sweep", "melody", "melody_tempo", "get", "residue"]))
         m = f"@{j}"
+        if j >= 1 and b not in rebound and plain_decl[b] and draw(st.integers(0, 9)) == 0:
+            # the name is bound to a new Buzzer on another pin: calls before this line sound on the old pin, calls after it on the new one.
+            # (What the new object remembers as "last frequency" is the open finding KF-C06-buzzer-name-rebound: not judged until it has sounded.)
+            rebound[b] = 28 + b
+            lines += [f"bz{b} = Buzzer({28 + b})", f"mon.write('{m}r')"]
+            ops.append({"m": m + "r", "b": b, "op": "rebind", "pin": 28 + b})
         if o == "residue":
             # a tone left sounding by an untimed play_tone, then a call that plays nothing (count 0 / negative), then stop() right behind it
             f = {"text": repr(draw(st.sampled_from([440, 262.5, 1000]))), "kind": "lit", "v": None}
@@ -238,8 +246,20 @@ def check_history(case, tape, trace):
             fails.append(("marker-missing", f"marker {op['m']}", "absent (call did not return?)"))
             break
         b = op["b"]
+        if op["op"] == "rebind":
+            if [x for x in ev if x[0] in ("TONE", "NOTONE", "DELAY")]:
+                fails.append(("rebind-makes-sound", "a declaration plays nothing", ev[:3]))
+            pins[b] = op["pin"]
+            pin_on.setdefault(op["pin"], False)
+            state[b] = {"sounding": None, "cur": 0.0, "last": None}   # None: what the new object reports before its first call is not judged
+            continue
         pin = pins[b]
         stt = state[b]
+        if (stt["last"] is None and ((op["op"] == "beep" and op["f"] is None) or op["op"] == "get_last_frequency")) or (stt["sounding"] is None and op["op"] in ("get_state", "get_frequency")):
+            for k, a in ev:   # not judged (see the rebind op); keep the real pin state in step
+                if k in ("TONE", "NOTONE") and int(a.split()[0]) in pin_on:
+                    pin_on[int(a.split()[0])] = (k == "TONE")
+            continue
         mine = [(k, a) for k, a in ev if (k in ("TONE", "NOTONE") and int(a.split()[0]) == pin) or k == "DELAY"]
         other = [(k, a) for k, a in ev if k in ("TONE", "NOTONE") and int(a.split()[0]) != pin]
         if other:
